@@ -29,12 +29,16 @@ gvars == <<vars, draws, drawn, scn, hist>>
 ScnSeqs == TLCEval([i \in DOMAIN Scenarios |-> SetToSeq(Scenarios[i])])
 
 W(s) == s[RandomElement(1..Len(s))]           \* weighted choice: repeat an element to favour it
-OrdSubs == {s \in UNION {[1..n -> T5] : n \in 0..3} : \A i, j \in DOMAIN s : i # j => s[i] # s[j]}
+OrdSubs == {s \in UNION {[1..n -> T5 \cup {"V2"}] : n \in 0..3} : \A i, j \in DOMAIN s : i # j => s[i] # s[j]}
 ROrdSubs == {s \in UNION {[1..n -> {"r1", "r10", "r2", "xr2"}] : n \in 0..3} : \A i, j \in DOMAIN s : i # j => s[i] # s[j]}
-Styles == <<"alt", "group", "group", "class", "class">>
+\* spellings of an entry (harness/cmd/c18drv: candidate): plain forms and regular expression features -
+\* inline flags (unclosed, scoped, without effect), the user's own anchors, classes with counted
+\* repetition, the empty entry.  The driver falls back to a group when a spelling would not select
+\* exactly the subset.
+Styles == <<"alt", "group", "group", "class", "class", "iflag", "iflag", "iscoped", "sflag", "uflag", "anch", "quant", "empty">>
 ImgW == <<"", "", "", "A", "A", "B", "C", "X", "X", "Y", "Xa", "H", "H", "D", "A5">>
 TgtW == <<"", "", "", "same", "same", "same", "same", "A", "B", "C", "X", "Xa", "H", "D", "A5">>
-T5s == <<"v1", "v10", "xv2", "v2", "latest">>
+T5s == <<"v1", "v10", "xv2", "v2", "latest", "V2">>     \* the pool: five tags and a case variant
 Grid == <<"r1", "r2", "r10", "xr2">>
 
 \* the environment of a run, which the design does not look at: page size of the registries'
@@ -52,22 +56,22 @@ EnvDraw(z) ==
 \* otherwise evaluate it once when it starts)
 Draw(z) ==
   [layout |-> RandomElement(1..8), par |-> RandomElement(0..4), env |-> EnvDraw(z),
-   t1 |-> RandomElement(1..5), t2 |-> RandomElement(1..4),
+   t1 |-> RandomElement(1..6), t2 |-> RandomElement(1..5),
    flt |-> TLCEval([i \in 1..18 |-> [tags |-> RandomElement(OrdSubs), style |-> W(Styles)]]),
-   rflt |-> TLCEval([i \in 1..2 |-> [tags |-> RandomElement(ROrdSubs), style |-> W(<<"alt", "group", "class">>)]]),
-   nal |-> TLCEval([i \in 1..3 |-> W(<<0, 0, 1, 1, 1, 2>>)]), nde |-> TLCEval([i \in 1..3 |-> W(<<0, 0, 0, 1, 1, 2>>)]),
+   rflt |-> TLCEval([i \in 1..2 |-> [tags |-> RandomElement(ROrdSubs), style |-> W(<<"alt", "group", "class", "iflag", "iscoped", "anch", "quant">>)]]),
+   nal |-> TLCEval([i \in 1..3 |-> W(<<0, 0, 1, 1, 2, 2>>)]), nde |-> TLCEval([i \in 1..3 |-> W(<<0, 0, 0, 1, 2, 2>>)]),
    nra |-> W(<<0, 0, 1>>), nrd |-> W(<<0, 0, 1>>),
    plat |-> TLCEval([i \in 1..3 |-> W(<<"", "", "", "amd64", "amd64", "arm64", "s390x">>)]),
    mts |-> TLCEval([i \in 1..3 |-> W(<< <<>>, <<>>, <<>>, <<"ociman", "dockerman">>, <<"ociman", "ociindex">>,
                                         <<"dockerlist", "dockerman", "ociindex">> >>)]),
    bk |-> TLCEval([i \in 1..3 |-> W(<<"none", "none", "tagtpl", "tagtpl", "const", "fullref", "othreg">>)]),
    sw |-> TLCEval([i \in 1..3 |-> W(<<1, 1, 1, 1, 2, 3, 4, 5, 6, 7>>)]),
-   src |-> TLCEval([i \in 1..20 |-> W(ImgW)]), tgt |-> TLCEval([i \in 1..20 |-> W(TgtW)]),
+   src |-> TLCEval([i \in 1..24 |-> W(ImgW)]), tgt |-> TLCEval([i \in 1..24 |-> W(TgtW)]),
    dt |-> RandomElement(1..3), xt |-> TLCEval([i \in 1..4 |-> W(<<"", "", "A", "B", "C">>)]),
    nruns |-> W(<<2, 2, 3, 3, 4>>),
    modes |-> TLCEval([i \in 1..4 |-> W(<<"once", "once", "once", "once", "check", "missing">>)]),
    nmv |-> TLCEval([i \in 1..3 |-> W(<<0, 1, 1, 2>>)]),
-   mv |-> TLCEval([i \in 1..6 |-> [repo |-> W(<<"r1", "r1", "r2">>), tag |-> W(<<"v1", "v1", "v2", "latest", "v10">>),
+   mv |-> TLCEval([i \in 1..6 |-> [repo |-> W(<<"r1", "r1", "r2">>), tag |-> W(<<"v1", "v1", "v2", "latest", "v10", "V2">>),
                                    img |-> W(<<"A", "B", "B", "C", "X", "", "orig", "orig">>)]])]
 
 SwOf(n) == CASE n = 1 -> <<FALSE, FALSE, FALSE, FALSE>> [] n = 2 -> <<TRUE, FALSE, FALSE, FALSE>>
@@ -100,15 +104,15 @@ Fix(es, i) == IF es[i].backup = "const" /\ \E j \in 1..(i - 1) : es[j].backup = 
               THEN [es[i] EXCEPT !.backup = "tagtpl"] ELSE es[i]
 Dedup(es) == IF Len(es) = 1 THEN es ELSE IF Len(es) = 2 THEN <<es[1], Fix(es, 2)>> ELSE <<es[1], Fix(es, 2), Fix(es, 3)>>
 \* populations: r1, r2 over the five tags; r10, xr2 (registry layouts) over two tags each
-Cell(d, g, t) == 5 * (g - 1) + t
+Cell(d, g, t) == 6 * (g - 1) + t
 SrcPop(d) ==
-  {<<Grid[g], T5s[t], d.src[Cell(d, g, t)]>> : g \in 1..2, t \in 1..5} \cup
+  {<<Grid[g], T5s[t], d.src[Cell(d, g, t)]>> : g \in 1..2, t \in 1..6} \cup
   (IF d.layout \in {4, 6} THEN {<<Grid[g], T5s[t], d.src[Cell(d, g, t)]>> : g \in 3..4, t \in 1..2} ELSE {}) \cup
   (IF d.dt = 1 THEN {<<"r1", "dtA", "S">>} ELSE {})
 SrcSet(d) == {x \in SrcPop(d) : x[3] # ""}
 SrcImg(d, r, t) == IF \E x \in SrcSet(d) : x[1] = r /\ x[2] = t THEN (CHOOSE x \in SrcSet(d) : x[1] = r /\ x[2] = t)[3] ELSE ""
 TgtSet(d) ==
-  LET raw == {<<Grid[g], T5s[t], d.tgt[Cell(d, g, t)]>> : g \in 1..4, t \in 1..5}
+  LET raw == {<<Grid[g], T5s[t], d.tgt[Cell(d, g, t)]>> : g \in 1..4, t \in 1..6}
       res == {<<x[1], x[2], IF x[3] = "same" THEN SrcImg(d, x[1], x[2]) ELSE x[3]>> : x \in raw}
       ext == {<<"r1", "zz", d.xt[1]>>, <<"r1", "old", d.xt[2]>>, <<"r1", "bak-v1", d.xt[3]>>, <<"r1", "copy", d.xt[4]>>,
               <<"solo", "v1", d.xt[1]>>, <<"r2", "old", d.xt[3]>>}
